@@ -115,6 +115,66 @@ def try_finally(fn: ast.AST, key: str) -> tuple[bool, bool, bool]:
     return guarded, resets, restores
 
 
+class _Rename(ast.NodeTransformer):
+    def __init__(self, mapping):
+        self.mapping = mapping
+
+    def visit_Name(self, node):
+        if node.id in self.mapping:
+            return ast.copy_location(ast.Name(id=self.mapping[node.id], ctx=node.ctx), node)
+        return node
+
+
+def canonical_locals(fn: ast.FunctionDef, kind: str) -> ast.FunctionDef:
+    """Locals are identified by HOW THEY ARE DEFINED, not by their names, and renamed to the names the readers below
+    use: the loop variable over `to_scan`; `old` = the value looked up under it; `upper` / `lower` = what the first /
+    second perturbed evaluation is bound to; `norm` = the third steady state of the worker; the coefficient(s) = the
+    local(s) bound to a quotient of `upper - lower`; `old_variables` = `model.get_raw_variables()`.  Parameters of the
+    functions (keyword API) keep their names."""
+    mapping: dict[str, str] = {}
+    params = {a.arg for a in fn.args.args + fn.args.kwonlyargs}
+
+    def bind(actual: str, canon: str) -> None:
+        if actual in params and actual != canon:
+            raise Unsupported(f"{fn.name}: parameter {actual} plays the role of local `{canon}`")
+        if actual != canon and (canon in mapping.values() or actual in mapping):
+            raise Unsupported(f"{fn.name}: two locals play the role of `{canon}`")
+        mapping[actual] = canon
+
+    key = "parameter"
+    if kind in ("var", "par"):
+        loops = [n for n in ast.walk(fn) if isinstance(n, ast.For) and ast.unparse(n.iter) == "to_scan" and isinstance(n.target, ast.Name)]
+        if len(loops) != 1:
+            raise Unsupported(f"{fn.name}: no single loop over to_scan")
+        key = loops[0].target.id
+        bind(key, kind)
+    assigns_ = sorted((n for n in ast.walk(fn) if isinstance(n, ast.Assign) and len(n.targets) == 1 and isinstance(n.targets[0], ast.Name)),
+                      key=lambda n: (n.lineno, n.col_offset))
+    evals = []
+    for a in assigns_:
+        v, t = a.value, a.targets[0].id
+        if isinstance(v, ast.Subscript) and isinstance(v.slice, ast.Name) and v.slice.id == key:
+            bind(t, "old")
+        elif ast.unparse(v) == "model.get_raw_variables()":
+            bind(t, "old_variables")
+        elif isinstance(v, ast.Call) and ast.unparse(v.func) in ("model.get_fluxes", "_steady_state_worker"):
+            evals.append(t)
+    roles = ["upper", "lower"] + (["norm"] if kind == "resp" else [])
+    if len(evals) != len(roles):
+        raise Unsupported(f"{fn.name}: expected {len(roles)} evaluations bound to locals, found {len(evals)}")
+    for t, r in zip(evals, roles):
+        bind(t, r)
+    up, lo = evals[0], evals[1]
+    coefs = [a.targets[0].id for a in assigns_ if isinstance(a.value, ast.BinOp) and isinstance(a.value.op, ast.Div)
+             and {up, lo} <= {n.id for n in ast.walk(a.value) if isinstance(n, ast.Name)}]
+    want = ["conc_resp", "flux_resp"] if kind == "resp" else ["elasticity_coef"]
+    if len(coefs) != len(want):
+        raise Unsupported(f"{fn.name}: expected {len(want)} difference quotient(s), found {len(coefs)}")
+    for t, r in zip(coefs, want):
+        bind(t, r)
+    return ast.fix_missing_locations(_Rename(mapping).visit(fn))
+
+
 def generate(repo: Path, outdir: Path) -> bool:
     tree = ast.parse((repo / SRC).read_text())
     out = [HEADER.format(src=SRC, tr="c18.py"), "namespace Mxl.Generated.C18\n"]
@@ -123,7 +183,7 @@ def generate(repo: Path, outdir: Path) -> bool:
         out.append(f"/-- `{doc}` -/\ndef {name} ({params} : Rat) : Rat := {body}\n")
 
     # ---- variable_elasticities: the perturbed state is `variables | {var: <value>}`
-    ve = find_function(tree, "variable_elasticities")
+    ve = canonical_locals(find_function(tree, "variable_elasticities"), "var")
     vals = []
     for node in ast.walk(ve):
         if is_call_to(node, "model", "get_fluxes"):
@@ -151,7 +211,7 @@ def generate(repo: Path, outdir: Path) -> bool:
     out.append(f"/-- the factor of `if normalized: elasticity_coef *= …` -/\ndef varScale (old base : Rat) : Rat := {scaling(ve, 'elasticity_coef', {})}\n")
 
     # ---- parameter_elasticities
-    pe = find_function(tree, "parameter_elasticities")
+    pe = canonical_locals(find_function(tree, "parameter_elasticities"), "par")
     pv = [v for v in perturbations(pe, "par")]
     non_reset = [v for v in pv if ast.unparse(v) != "old"]
     if len(non_reset) != 2:
@@ -177,7 +237,7 @@ def generate(repo: Path, outdir: Path) -> bool:
                f"def parStateResolvedOnce : Bool := {'true' if top and explicit and calls else 'false'}\n")
 
     # ---- _response_coefficient_worker
-    rw = find_function(tree, "_response_coefficient_worker")
+    rw = canonical_locals(find_function(tree, "_response_coefficient_worker"), "resp")
     pv = perturbations(rw, "parameter")
     non_reset = [v for v in pv if ast.unparse(v) != "old"]
     if len(non_reset) != 2:
@@ -195,5 +255,23 @@ def generate(repo: Path, outdir: Path) -> bool:
     out.append(f"/-- the perturbations sit in a `try:` whose `finally:` resets the parameter and, under `if y0 is not None`,\n"
                f"    gives the model its saved variables back -/\n"
                f"def respFinallyRestores : Bool := {'true' if guarded and resets and restores else 'false'}\n")
+    # ---- model.py: update_variables / update_parameters check EVERY name before the first write (the `wr` steps of
+    # the model: a failing update leaves the model as it was)
+    mtree = ast.parse((repo / "src/mxlpy/model.py").read_text())
+    atomic = True
+    for meth, single in (("update_variables", "update_variable"), ("update_parameters", "update_parameter")):
+        fn = find_function(mtree, meth, cls="Model")
+        body = [st for st in fn.body if not (isinstance(st, ast.Expr) and isinstance(st.value, ast.Constant))]
+        first = ast.unparse(body[0]) if body else ""
+        writes_later = all(f"self.{single}(" not in ast.unparse(st) for st in body[:1]) and any(
+            f"self.{single}(" in ast.unparse(st) for st in body[1:])
+        atomic = atomic and first.startswith("self._check_known_names(") and writes_later
+    chk = find_function(mtree, "_check_known_names", cls="Model")
+    atomic = atomic and any(isinstance(n, ast.Raise) for n in ast.walk(chk)) and not any(
+        isinstance(n, (ast.Assign, ast.AugAssign)) and "self." in ast.unparse(n.targets[0] if isinstance(n, ast.Assign) else n.target)
+        for n in ast.walk(chk))
+    out.append("/-- `Model.update_variables` / `update_parameters` call `self._check_known_names(...)` (which raises and writes nothing)\n"
+               "    before the first `update_variable` / `update_parameter` -/\n"
+               f"def updatesCheckNamesFirst : Bool := {'true' if atomic else 'false'}\n")
     out.append("end Mxl.Generated.C18\n")
     return write_if_changed(outdir / "C18Expr.lean", "\n".join(out))
